@@ -65,7 +65,12 @@ class Results:
         self.stats = {}
 
     def add(self, rule, where, inst, verdict, detail='', loc='',
-            nontrivial=True, extra=None):
+            nontrivial=True, extra=None, semantic=False):
+        """semantic=True: the verdict comes from whole-function abstract
+        evaluation or evaluated tables and carries a witness -- it stays a
+        VIOLATION even on a tree far from the reference (see churn.py)"""
+        if semantic:
+            extra = dict(extra or {}, semantic=True)
         i = Instance(rule, where, inst, verdict, detail, loc, nontrivial,
                      extra)
         self.instances.append(i)
@@ -121,6 +126,37 @@ def finish(prop, tier, res, t0, explanation, assumptions, analysed,
             res.vanished(rule, '-', 'instance-count',
                          'rule matched {} instances, hand-confirmed minimum '
                          'is {}'.format(have, n))
+
+    # ---- trust gate: how far is the analysed tree from the reference tree?
+    churn_info = None
+    try:
+        from . import churn as _churn
+        mods = analysed.get('accessed_modules') if analysed else None
+        root = analysed.get('repo') if analysed else None
+        if root:
+            total, per, detail = _churn.churn(
+                root, mods if mods else None)
+            churn_info = {'changed_statements': total, 'per_module': per,
+                          'threshold': _churn.THRESHOLD,
+                          'refactored': total > _churn.THRESHOLD}
+            if total > _churn.THRESHOLD:
+                for i in res.instances:
+                    if i.verdict == VIOLATION and \
+                            i.key not in known_keys and \
+                            not i.extra.get('semantic'):
+                        i.verdict = UNDECIDED
+                        i.extra['downgraded'] = True
+                        i.detail = ('the consulted modules differ from the '
+                                    'reference tree by {} statements (> {}): '
+                                    'this shape-based rule is not trusted to '
+                                    'accuse refactored code; it reported: '
+                                    .format(total, _churn.THRESHOLD)
+                                    + i.detail)
+    except Exception as e:       # the gate must never break a check
+        churn_info = {'error': '{}: {}'.format(type(e).__name__, e)}
+    if analysed is not None:
+        analysed['distance_from_reference'] = churn_info
+        analysed.pop('accessed_modules', None)
 
     n_viol = 0
     n_err = 0
